@@ -77,6 +77,7 @@ impl<'a, SlotType: 'a + Debug> MMapMeta<'a, SlotType> {
 
     /// Returns a single subscriber -- for forthcoming events only
     pub fn subscribe_to_new_events_only(self: &Arc<Self>) -> MMapMetaDynamicSubscriber<'a, SlotType> {
+        #[cfg(feature = "verif")] crate::verif::yield_point();
         let first_element_slot_id = self.mmap_contents.consumer_tail.load(Relaxed);
         MMapMetaDynamicSubscriber {
             head:                AtomicUsize::new(first_element_slot_id),
@@ -176,10 +177,14 @@ impl<'a, SlotType: 'a + Debug> MetaPublisher<'a, SlotType> for MMapMeta<'a, Slot
     #[inline(always)]
     fn publish<F: FnOnce(&mut SlotType)>(&self, setter: F) -> (Option<NonZeroU32>, Option<F>) {
         let mutable_self = unsafe { &mut *(*(self as *const Self as *const std::cell::UnsafeCell<Self>)).get() };
+        #[cfg(feature = "verif")] crate::verif::yield_point();
         let tail = self.mmap_contents.publisher_tail.fetch_add(1, Relaxed);
         let slot = unsafe { mutable_self.buffer.get_unchecked_mut(tail) };
+        #[cfg(feature = "verif")] crate::verif::yield_point();
         setter(slot);
+        #[cfg(feature = "verif")] crate::verif::yield_point();
         while self.mmap_contents.consumer_tail.compare_exchange_weak(tail, tail+1, Relaxed, Relaxed).is_err() {
+            #[cfg(feature = "verif")] crate::verif::yield_point();
             std::hint::spin_loop();
         }
         (NonZeroU32::new(1 + tail as u32), None)
@@ -268,6 +273,7 @@ impl<'a, SlotType: 'a + Debug> MetaSubscriber<'a, SlotType> for MMapMetaDynamicS
 
         let mutable_self = unsafe { &mut *(*(self as *const Self as *const std::cell::UnsafeCell<Self>)).get() };
         let head = self.head.fetch_add(1, Relaxed);
+        #[cfg(feature = "verif")] crate::verif::yield_point();
         let tail = self.meta_mmap_log_topic.mmap_contents.consumer_tail.load(Relaxed);
         // check if there is an element available
         if head >= tail {
